@@ -3,6 +3,7 @@
 clauses of the statement that are not claimed."""
 
 PROPS = {
+    'C09': {'scans': [], 'trusted': [], 'bounded': [], 'not_claimed': []},
     'C18': {'scans': ['user_code_runs_in_scope', 'hooks_run_in_scope'], 'trusted': [], 'bounded': [], 'not_claimed': []},
     'C02': {'scans': [], 'trusted': [], 'bounded': [], 'not_claimed': []},
     'C03': {'scans': [], 'trusted': [], 'bounded': [], 'not_claimed': []},
